@@ -459,12 +459,12 @@ CLAIM_TEXT = {
     "C11": ("view_at / view_mut_at, left / right / split / has_left / has_right from every view location (node or virtual) against the region oracle; existence iff non-empty on canonical tries", "§4 C11"),
     "C12": ("find / find_exact / find_lpm / view_at from every view location and every query (inside, covering, disjoint), read-only and mutable (Err hands back the view)", "§4 C12"),
     "C13": ("mutable lookups, iterators, view accessors and *_mut set operations hand out the value slot of the node the read-only twin yields; a write changes exactly that entry (arena read-back)", "§4 C13"),
-    "C14": ("address and region disjointness: results of find/left/right/split lie inside the consumed view, the two sides are disjoint, one traversal never hands out a slot twice, and a symbolic interleaving of two IterMut over a split equals the sequential result; the compile-time clauses (borrow checking, Send/Sync bounds) are not decidable by symbolic execution (DESIGN.md §12)", "§4 C14"),
+    "C14": ("address and region disjointness: results of find/left/right/split lie inside the consumed view, the two sides are disjoint, one traversal never hands out a slot twice (the symbolic interleaving of two IterMut over a split is a thorough, optional instance that does not finish here); the compile-time clauses (borrow checking, Send/Sync bounds) are not decidable by symbolic execution (DESIGN.md §12)", "§4 C14"),
     "C15": ("every mutator preserves WF (and CANON where the property demands it) from every WF arena of at most N slots; remove_keep_tree and value-only operations leave child pointers and prefixes unchanged; canonical tries with equal key sets have equal node sets (lemma)", "§4 C15"),
     "C16": ("every mutator preserves the slot partition (reachable xor free, free list duplicate-free) and grows the arena only when the free list is empty, from every partitioned arena of at most N slots", "§4 C16"),
     "C17": ("the Prefix trait methods of all 14 shipped types against the reference algebra for every representation, every length 0..=width and every bit index 0..=255 (finite domain decided completely, no loop in the code under test)", "§4 C17"),
     "C18": ("stored representation component of the abstract map: observers, iterators, views and set-operation items return stored bytes, inserting calls overwrite them with the argument's bytes, other calls leave them", "§4 C18"),
-    "C19": ("== / != of two maps and of two sets against the sequence oracle (2+2 slots), clone() equality and independence, rebuild from the own entries in another order; the serde wire formats are not decidable here (DESIGN.md §12)", "§4 C19"),
+    "C19": ("== / != of two maps and of two sets against the sequence oracle at 1+1 slots (2+2 is a thorough, optional instance that does not finish here), clone() equality and independence (N=3), rebuild from the own entries in another order (thorough); the serde wire formats are not decidable here (DESIGN.md §12)", "§4 C19"),
     "C20": ("Kani's panic / unwrap / unreachable / index / overflow / unwinding checks over the harnesses of all other properties (every public entry point from every invariant state inside the bound), handle-call sequences, and callback-time observations modelling a panicking user callback", "§4 C20"),
 }
 NOT_YET = "harnesses for this property are not built yet in this revision"
